@@ -82,7 +82,7 @@ def _origin(cfg, rd, node, e, depth, seen):
                         break
                 terms.append(t if t is not None else ("other", dump(dn.ast)))
             elif dn.kind == "stmt" and isinstance(dn.ast, ast.AugAssign):
-                terms.append(("aug", dump(dn.ast.op.__class__.__name__),
+                terms.append(("aug", dn.ast.op.__class__.__name__,
                               _origin(cfg, rd, dn, ast.Name(id=e.id, ctx=ast.Load()), depth + 1, s2),
                               _origin(cfg, rd, dn, dn.ast.value, depth + 1, s2)))
             elif dn.kind == "stmt" and isinstance(dn.ast, ast.AnnAssign) and dn.ast.value is not None:
